@@ -71,6 +71,24 @@ Theorem C10_checker_sound :
     summary iv None = Ok rows /\ same_series rows arrays = true.
 Proof. exact consistent_sound. Qed.
 
+(* _transform_to_node_history_ (SIR): the history of node u is a function of its
+   infection and recovery time only, with the code's reset when a time equals tmin
+   ([sir_history]); tables are dicts (duplicate-free keys) *)
+Theorem C10_transform_SIR_spec :
+  forall tmin inf rec u, NoDup (map fst inf) -> NoDup (map fst rec) ->
+  assoc (transform_SIR tmin inf rec) u = sir_history tmin (assoc inf u) (assoc rec u).
+Proof. exact transform_SIR_spec. Qed.
+
+(* ... and it is a legal SIR history (starts at tmin, time-ordered, S->I->R only) when
+   infection is no earlier than tmin and recovery no earlier than infection *)
+Theorem C10_transform_SIR_histories_legal :
+  forall tmin ti tr h,
+  (forall t, ti = Some t -> tmin <= t) ->
+  (forall t, tr = Some t -> exists t', ti = Some t' /\ t' <= t) ->
+  sir_history tmin ti tr = Some h ->
+  good_histb [stS; stI; stR] [(stS, stI); (stI, stR)] tmin h = true.
+Proof. exact sir_history_good. Qed.
+
 (* ---------------- non-vacuity ---------------- *)
 (* three nodes, SIR: 0 is infected at 1/2 and recovers at 2; 1 starts infected and
    recovers at 1/2 (a shared time); 2 never changes *)
@@ -91,6 +109,15 @@ Example C10_ex_summary :
   consistent_b ex_iv [(0, [2; 1; 0]%Z); (1 # 2, [2; 1; 0]%Z)] 0 [(stS, stI); (stI, stR)] = false.
 Proof. vm_compute. repeat split. Qed.
 
+(* node 0 initially infected (time tmin: the default entry is dropped), recovers at 1;
+   node 1 infected at 1/2, still infected; a zero-length infection at tmin keeps only R *)
+Example C10_ex_transform :
+  transform_SIR 0 [(0%N, 0); (1%N, 1 # 2)] [(0%N, 1)] = [(0%N, [(0, stI); (1, stR)]); (1%N, [(0, stS); (1 # 2, stI)])] /\
+  sir_history 0 (Some 0) (Some 0) = Some [(0, stR)] /\
+  transform_SIS 0 [(0%N, [0; 2 # 1]); (1%N, [1 # 2])] [(0%N, [1])] =
+    [(0%N, [(0, stI); (1, stS); (2 # 1, stI)]); (1%N, [(0, stS); (1 # 2, stI)])].
+Proof. vm_compute. repeat split. Qed.
+
 Print Assumptions C10_summary_spec.
 Print Assumptions C10_summary_default_is_all_nodes.
 Print Assumptions C10_tSIR_are_columns_of_summary.
@@ -99,5 +126,8 @@ Print Assumptions C10_node_status_spec.
 Print Assumptions C10_get_statuses_spec.
 Print Assumptions C10_log_lemma.
 Print Assumptions C10_checker_sound.
+Print Assumptions C10_transform_SIR_spec.
+Print Assumptions C10_transform_SIR_histories_legal.
+Print Assumptions C10_ex_transform.
 Print Assumptions C10_ex_hypotheses.
 Print Assumptions C10_ex_summary.
